@@ -132,6 +132,7 @@ func Build(specs []GenSpec) []gengo.Generator {
 		render := func(c gengo.Context, bh Behav, name string) {
 			c.RenderT("// @g @salt saw @n\nconst _ = \"@g|@n|@salt\"\n\n",
 				snippet.Arg("g", snippet.Block(gs.Name)), snippet.Arg("salt", snippet.Block(bh.Salt)), snippet.Arg("n", snippet.Block(name)))
+			multiImport(c, bh.Imports)
 			for _, ip := range bh.Imports {
 				c.RenderT("var _ @t\n\n", snippet.Arg("t", snippet.ID(ip)))
 			}
@@ -741,7 +742,41 @@ func observe(c gengo.Context, bh Behav, gen string, named *types.Named) {
 		// packages are not importable from the scratch module)
 		c.RenderT("/*\n@v\n*/\n\n", snippet.Arg("v", snippet.Value(holder.Sample())))
 	}
+	multiImport(c, bh.Imports)
 	for _, ip := range bh.Imports {
 		c.RenderT("var _ @t\n\n", snippet.Arg("t", snippet.ID(ip)))
 	}
+}
+
+// multiImport: ONE template call whose arguments bring in several not yet imported packages (their base names often
+// clash: x/model + y/model, math/rand + x/rand). Import names are handed out first come, first served - in the order
+// the template mentions the arguments, never in the iteration order of the argument map (seeded change C04-n).
+func multiImport(c gengo.Context, imports []string) {
+	if len(imports) < 2 {
+		return
+	}
+	// those whose package base name occurs more than once come first (stable otherwise)
+	base := func(ref string) string {
+		pp := ref
+		if i := strings.LastIndex(ref, "."); i > strings.LastIndex(ref, "/") {
+			pp = ref[:i]
+		}
+		return pp[strings.LastIndex(pp, "/")+1:]
+	}
+	count := map[string]int{}
+	for _, ip := range imports {
+		count[base(ip)]++
+	}
+	imports = append([]string{}, imports...)
+	sort.SliceStable(imports, func(i, j int) bool { return count[base(imports[i])] > 1 && count[base(imports[j])] <= 1 })
+	args := snippet.Args{}
+	format := "var _ struct {\n"
+	for i, ip := range imports {
+		if i >= 8 {
+			break
+		}
+		args[fmt.Sprintf("t%d", i)] = snippet.ID(ip)
+		format += fmt.Sprintf("\tF%d @t%d\n", i, i)
+	}
+	c.RenderT(format+"}\n\n", args)
 }
